@@ -77,7 +77,7 @@ theorem kstep_tmInit {cfg : Cfg} (fuel : Nat) {s : KS} {a : A} {q : QEntry ℚ} 
     rw [e1']
     exact closeEvent_ok e3
   have hcur : a.cur = none := hiT.cur
-  refine ⟨S, { aTick a q.time with tph := upd a.tph seq ph' }, [], [], hS, ?_, ?_, rfl, by simp [aTick]⟩
+  refine ⟨S, { aTick a q.time with tph := upd a.tph seq ph' }, [], [], hS, ?_, ?_, rfl, by simp [aTick], fun x hx => by cases hx⟩
   · refine e2.congr ?_
     simp only [aTmRun, aTick, upd_upd, hcur]
   · refine hiT.set_tph seq ph' (fun _ => ?_)
